@@ -241,6 +241,23 @@ pub fn run(o: &Opts) -> Report {
             rep.sample(json!({"announced": format!("{:03}", c), "parse_auto": auto_cls, "parse_mt": pp_cls, "validate_mt": pv_cls}));
         }
     }
+    // (2b) type strings that merely START with a supported code (`1990`, `199X`, `MT1992`, `103STP`): publish must refuse them
+    // as unsupported like every other entry point, not publish them as the three-character prefix
+    for &c in SUPPORTED.iter().take(if o.thorough() { 30 } else { 8 }) {
+        let text = reannounce(base_of(c), c);
+        let Some(tj) = with_mt!(c, T => SwiftParser::parse::<T>(&text).ok().and_then(|m| serde_json::to_value(&m).ok()), None) else { continue };
+        for suffix in ["0", "X", "2", "STP", " "] {
+            for prefix in ["", "MT"] {
+                let mut j = tj.clone();
+                let ty = format!("{prefix}{c:03}{suffix}");
+                j["message_type"] = json!(ty);
+                rep.case(&format!("publish-longer {ty}"), true);
+                if let Ok(p) = plugins.publish(&j) {
+                    rep.fail(&format!("dispatch|publish|longer-type code={c}"), json!({"code": c, "message_type": ty, "published_hex": hex(&p), "why": "a type string that only starts with a supported code was published as that type"}));
+                }
+            }
+        }
+    }
     // (3) rule-VIOLATING messages of every type that has rules: the wrapper's validate and the validate plugin must give the
     // typed API's verdict for them as well (a dispatch table that sends a type to "nothing to check" only shows on a message
     // that breaks a rule).  The violating messages are the systematic single mutants of the shipped scenarios (C04 stream).
